@@ -106,7 +106,7 @@ def run(ctx):
                 if n > 3 and (sum(d) + L) % 4:
                     continue
                 ot = "n" if (L + n) % 2 else "v"
-                adc_event(d, n, ot, 1.0, (L + n + sum(d)) % 6)
+                adc_event(d, n, ot, [1.0, 1.0, 2.0 ** -70][(L + sum(d)) % 3], (L + n + sum(d)) % 6)
                 meta.append(("adc", L, n, ot))
                 ctx.case(("adc-small", L, n, ot), {"ADC": [d, n, ot]} if L == 4 else None)
     for k in range(150 if T else 14):
@@ -135,9 +135,23 @@ def run(ctx):
         if dist == "quantised" and k % 2:
             adc_event([int(v) for v in x], bits, ot, 1.0, 3 + k % 3)        # small integer counts in int16 / uint8 / int8 arrays
         else:
-            adc_event([int(v) for v in x], bits, ot, rnd.choice([1.0, 2.0 ** -20, 2.0 ** 10]), rnd.randrange(3))
+            adc_event([int(v) for v in x], bits, ot, rnd.choice([1.0, 2.0 ** -20, 2.0 ** 10, 2.0 ** -60, 2.0 ** -100]), rnd.randrange(3))      # swings down to 1e-27
         meta.append(("adc-long", n, bits, ot))
         ctx.case(("adc-long", dist, n >= 10001, bits, ot, outl))
+    # ---- sampling rates that are not a whole number of hertz, record lengths of every residue: the output has the input's length
+    from opticomlib.typing import gv as _gv
+    with warnings.catch_warnings():
+        warnings.simplefilter("ignore")
+        _gv(sps=16, R=10.3125e9 * 255 / 237)
+    for L_ in list(range(20, 130)) + [206, 255, 1000, 1001]:
+        xs_ = np.sin(np.arange(L_) * 0.7) * 3 + 0.25
+        with deadline(60):
+            o_ = np.asarray(ADC(protect(electrical_signal(xs_)) if L_ % 2 else protect(xs_.copy()), n=4).signal)
+        if o_.shape != xs_.shape:
+            events.append({"kind": "adcstat", "n": 4, "distinct": int(len(np.unique(o_))), "len_ok": False, "finite": True, "inside": True, "sat_ok": True})
+            meta.append(("adcstat", L_, 4, "v"))
+    ctx.case(("adc-lengths-noninteger-fs",), None)
+    _gv.clean()
     # ---- data that are not dyadic (0.65, -0.3, 1e25 ...): exact integer replay is impossible, the statement's countable clauses are
     #      observed by the harness (membership, counts) and judged by TLC
     for k in range(120 if T else 30):
